@@ -1,5 +1,6 @@
 PROP = {
     "id": "C08",
+    "tie2": ["Tie2Hsms"],
     "harness": "c08",
     "driver": "c08",
     "n_quick": 300,
